@@ -204,3 +204,18 @@ M('pcs_not_sorted_by_eigenvalue', ['C06'], 'phylib/io/model.py',
   "        pcs = vecs.T.astype(np.float32)[np.argsort(vals)[::-1]]", "        pcs = vecs.T.astype(np.float32)[np.argsort(np.abs(vecs).sum(axis=0))[::-1]]")
 M('project_pcs_axes', ['C06'], 'phylib/io/model.py',
   "    features = np.einsum('ijk,ljk->lki', pcs, x)", "    features = np.einsum('ijk,ljk->lki', pcs, x - x.mean(axis=0, keepdims=True))")
+# ---- C08 -----------------------------------------------------------------------------------
+M('mean_waveforms_unweighted', ['C08'], 'phylib/io/model.py',
+  "        mean_waveforms = np.average(waveforms, axis=0, weights=count)", "        mean_waveforms = np.average(waveforms, axis=0)")
+M('mean_waveforms_wrong_dominant', ['C08'], 'phylib/io/model.py',
+  "        best_template = np.argmax(count)\n", "        best_template = np.nonzero(count)[0][0]\n")
+M('nan_idx_only_template_range', ['C08'], 'phylib/io/model.py',
+  "        nan_idx = np.array([idx for idx, val in inverse_mapping_dict.items() if len(val) == 0])",
+  "        nan_idx = np.array([idx for idx, val in inverse_mapping_dict.items() if len(val) == 0 and idx < len(np.unique(self.spike_templates)) + 2])")
+M('cluster_waveforms_single_skipped', ['C08'], 'phylib/io/model.py',
+  "            elif len(val) == 1:\n                data[clust, :, :] = self.sparse_templates.data[val[0], :, :]",
+  "            elif len(val) == 1 and clust < self.n_templates:\n                data[clust, :, :] = self.sparse_templates.data[val[0], :, :]")
+M('cluster_waveforms_channels_not_applied', ['C08'], 'phylib/io/model.py',
+  "        waveforms = data[..., channel_ids]\n", "        channel_ids = np.sort(channel_ids)[:max(1, len(channel_ids) - (len(template_ids) > 2))]\n        waveforms = data[..., channel_ids]\n")
+M('curated_branch_any', ['C08'], 'phylib/io/model.py',
+  "        if not np.all(self.spike_clusters == self.spike_templates) and \\", "        if not np.all(self.spike_clusters[:-1] == self.spike_templates[:-1]) and \\")
